@@ -1,7 +1,12 @@
 use std::{
     cmp::max,
-    sync::{Arc, atomic::AtomicI32},
+    sync::{
+        Arc,
+        atomic::{AtomicI32, Ordering},
+    },
 };
+
+use bitvec::vec::BitVec;
 
 use itertools::Itertools;
 use log::debug;
@@ -136,29 +141,45 @@ pub fn sub_step(
     );
     edges.shrink_to_fit();
 
-    debug!("[{axis}] instantiating min-cut solver, epsilon {balance_factor}");
-    let mut max_flow_solver = Dinic::from_edge_list(edges, 0, 1);
-    debug!("[{axis}] instantiated min-cut solver");
-    max_flow_solver.run_with_upper_bound(upper_bound);
+    let (flow, intermediate_assignment) = if edges.is_empty() {
+        // no edge is left between two different nodes (e.g. a cell whose edges all lie
+        // inside the contracted ends): nothing can flow, and only the contracted source
+        // end lies on the source side. A completed run publishes its flow.
+        upper_bound.fetch_min(0, Ordering::Relaxed);
+        let mut assignment = BitVec::new();
+        assignment.push(true);
+        (0, assignment)
+    } else {
+        debug!("[{axis}] instantiating min-cut solver, epsilon {balance_factor}");
+        let mut max_flow_solver = Dinic::from_edge_list(edges, 0, 1);
+        debug!("[{axis}] instantiated min-cut solver");
+        max_flow_solver.run_with_upper_bound(upper_bound);
 
-    let max_flow = max_flow_solver.max_flow();
+        let max_flow = max_flow_solver.max_flow();
 
-    if let Err(message) = max_flow {
-        // Error is returned in case the search is aborted early
-        return Err(FlowError::String(message));
-    }
-    let flow = max_flow.expect("max flow computation did not run");
+        if let Err(message) = max_flow {
+            // Error is returned in case the search is aborted early
+            return Err(FlowError::String(message));
+        }
+        let flow = max_flow.expect("max flow computation did not run");
 
-    debug!("[{axis}] computed max flow: {flow}");
-    let intermediate_assignment = max_flow_solver
-        .assignment(0)
-        .expect("max flow computation did not run");
+        debug!("[{axis}] computed max flow: {flow}");
+        let intermediate_assignment = max_flow_solver
+            .assignment(0)
+            .expect("max flow computation did not run");
+        (flow, intermediate_assignment)
+    };
 
     // TODO: don't copy, but partition in place
     let (left_ids, right_ids): (Vec<_>, Vec<_>) = node_id_list
         .into_iter()
         .filter(|id| renumbering_table.contains_key(*id))
-        .partition(|id| intermediate_assignment[renumbering_table.get(*id)]);
+        .partition(|id| {
+            // nodes whose only edges were dropped as self-loops are not part of the
+            // flow graph; they are not reachable from the source end
+            let node = renumbering_table.get(*id);
+            node < intermediate_assignment.len() && intermediate_assignment[node]
+        });
 
     debug_assert!(!left_ids.is_empty());
     debug_assert!(!right_ids.is_empty());
